@@ -387,6 +387,7 @@ func drawHsScript(w *smcWorld) hsScript {
 // It returns true when the dial returned a connection and everything checked out.
 func smcHandshake(w *smcWorld, s hsScript) bool {
 	e := w.e
+	e.Act(fmt.Sprintf("script:R%d:a%d:%s:%s:d=%s:st%d:pre%v:pipe%v:x%d", w.R, s.answerCER, s.ceaKind, s.delayClass, s.disconnect, s.stallCER, s.preApp, s.pipelined, len(s.extras)), "")
 	e.Act("script", "answer=%d kind=%s delay=%s(%v) disc=%s@%v preApp=%v pipelined=%v stall=%d/%v extras=%v", s.answerCER, s.ceaKind, s.delayClass, s.delay, s.disconnect, s.discAt, s.preApp, s.pipelined, s.stallCER, s.stallFor, s.extras)
 	if s.stallCER == 1 {
 		w.sc.ArmWriteFault(&WriteFault{Kind: "stall", After: 7})
@@ -816,6 +817,15 @@ func c13ClientX(e *Env, forC14 bool, forced *c13Forced) {
 	plans := drawDwPlans(w, nCycles)
 	if forced != nil {
 		plans = forced.plans
+	}
+	{
+		ks := fmt.Sprintf("plans:R%d", w.R)
+		for i, pl := range plans {
+			if i < 8 {
+				ks += ":" + pl.kind
+			}
+		}
+		e.Act(ks, "")
 	}
 	e.Act("plans", "%d cycles, last=%s", len(plans), plans[len(plans)-1].kind)
 	var txs []dwTx
